@@ -214,7 +214,7 @@ def plan(tier, seed, for_invariants=False):
     for nm in (MOLS_Q if (q and for_invariants) else MOLS_T):
         mol = M.FEATURE[nm]
         parts = [p for p in M.partitions(mol, max_frag=4 if q else 5) if len(p) >= 2]
-        step = 4
+        step = 4 if q else 1
         for i in range(0, len(parts), step):
             tasks.append({'space': 'layered-atomistic', 'kind': 'layered', 'bottom': 'mol', 'name': nm,
                           'parts': parts[i:i + step], 'max_levels': 1 if (q and for_invariants) else 2 if q else 3})
